@@ -13,7 +13,8 @@
      - every timer handle the client still believes live is in the heap;
      - handle ids are below the next id.
    No normalisation hypothesis is needed (timevals and clock readings play no role in memory
-   safety).  AssertFail is possible in exactly two places, both argument checks of the C:
+   safety).  The partial states a refused registration leaves behind (net_register_refused,
+   timer_register_refused) satisfy the invariant too, so continuations from them are covered.  AssertFail is possible in exactly two places, both argument checks of the C:
    events_immediate_register with prio >= 32 (assert((prio >= 0) && (prio < 32))) and
    growpollfd for a descriptor >= INT_MAX (assert(fd < INT_MAX)); the other two asserts of
    growpollfd (pollpos == -1, nfds < fds_alloc) cannot fail. *)
